@@ -627,7 +627,7 @@ def contracts(tier: str, seed: int = 0) -> List[MacroContract]:
                 'dst[:n] += const',
                 n=n,
             )
-            if const:  # `hex.sub_constant n, dst, 0` does not assemble (negative shift count): reported, not a value contract
+            if True:  # (constant 0 did not assemble on the pinned tree - fixed in /repo eda7b6d; now under the same contract)
                 T.add(
                     f'hex.sub_constant[{const:#x}]',
                     f'hex.sub_constant {n}, x, {const}',
@@ -1181,8 +1181,6 @@ def composable(cs: Sequence[MacroContract], n: int) -> List[MacroContract]:
 
 
 NOT_UNDER_CONTRACT = {
-    'hex.sub_constant n, dst, 0': 'does not assemble (negative shift count in the constant-splitting expression `const >> (leading_lsb_const_zeros & -4)`), '
-    'while hex.add_constant accepts 0: reported as a candidate finding; no value contract is possible for a program that does not assemble',
     'hex.hex / hex.vec n (no value), hex.init, hex.tables.init_shared / init_all, hex.{or,and,add,sub,cmp,mul}.init': 'declarations and table construction: '
     'no destination formula; the tables are covered entry by entry in the table section',
     'hex.add_mul res, x (single hex)': 'documented in terms of the hidden cells hex.mul.dst / hex.mul.add_carry_dst; exercised through hex.add_mul n '
